@@ -42,6 +42,7 @@ type prPool struct {
 	GunFail, BindFail, SchedFail int
 	PanicInst, PanicShot         int
 	Fault, Shape, Ek             string
+	Block                        string // a component call that does not return before Engine.Run has returned (PoolRun.tla: block)
 	Long, Slow                   bool // Long: never ends by itself (unlimited schedule, 2^30 ammo); Slow: shots take milliseconds
 }
 
@@ -164,6 +165,28 @@ type prRun struct {
 	cancel    context.CancelFunc
 
 	active int32 // mock Runs / Shoots in flight
+
+	rel     chan struct{} // closed by the driver once Engine.Run has returned (or its hang is confirmed)
+	relOnce sync.Once
+}
+
+// blocked is called by a mock at the position the plan marks as "does not return before Run has returned": the
+// call is context-unaware and slow. The caller's cancel is issued as soon as the mock is inside (see emit).
+func (r *prRun) blocked(p int, pl prPool, pos string) {
+	if pl.Block != pos {
+		return
+	}
+	r.emit(prEv{Ev: "Blocked", P: p, Cls: pos})
+	<-r.rel
+}
+
+func (r *prRun) release(log bool) {
+	r.relOnce.Do(func() {
+		if log {
+			r.emit(prEv{Ev: "Release"})
+		}
+		close(r.rel)
+	})
 }
 
 func (r *prRun) emit(e prEv) {
@@ -175,7 +198,7 @@ func (r *prRun) emit(e prEv) {
 	}
 	r.w.Emit(e)
 	r.count++
-	if r.cancelAt >= 0 && r.count >= r.cancelAt && !r.cancelled && !r.returned {
+	if ((r.cancelAt >= 0 && r.count >= r.cancelAt) || (e.Ev == "Blocked" && r.plan.Cancel)) && !r.cancelled && !r.returned {
 		r.cancelled = true
 		r.cancelT = time.Now()
 		r.w.Emit(prEv{Run: r.id, Ev: "Cancel"})
@@ -300,6 +323,9 @@ type prGun struct {
 func (g *prGun) Bind(_ core.Aggregator, deps core.GunDeps) error {
 	g.inst = deps.InstanceID
 	g.r.jit()
+	if g.inst == 0 {
+		g.r.blocked(g.p, g.pl, "bind-first")
+	}
 	if g.pl.BindFail == g.inst {
 		g.r.emit(prEv{Ev: "Bind", P: g.p, N: g.inst, Cls: "bind"})
 		return g.pl.errVal(prErrBind, nil)
@@ -320,6 +346,9 @@ func (g *prGun) Shoot(core.Ammo) {
 	if g.pl.Slow {
 		time.Sleep(3 * time.Millisecond)
 	}
+	if g.inst == 0 && g.shots == 0 {
+		g.r.blocked(g.p, g.pl, "shoot")
+	}
 	g.shots++
 	boom := g.pl.PanicInst == g.inst && g.pl.PanicShot == g.shots
 	g.r.emit(prEv{Ev: "Shoot", P: g.p, N: g.inst, Flag: boom})
@@ -338,6 +367,7 @@ func (g *prGun) doClose() error {
 
 func (g *prGun) doWarmUp(*warmup.Options) (interface{}, error) {
 	g.r.jit()
+	g.r.blocked(g.p, g.pl, "warmup")
 	if g.pl.Warm == "fail" {
 		g.r.emit(prEv{Ev: "WarmUp", P: g.p, Cls: "warmup"})
 		return nil, g.pl.errVal(prErrWarm, nil)
@@ -370,6 +400,12 @@ func (f *prFactory) NewGun() (core.Gun, error) {
 	f.gunCalls++
 	f.mu.Unlock()
 	f.r.jit()
+	switch n {
+	case 0:
+		f.r.blocked(f.p, f.pl, "newgun-warmup")
+	case 1:
+		f.r.blocked(f.p, f.pl, "newgun-first")
+	}
 	if n == f.pl.GunFail {
 		f.r.emit(prEv{Ev: "NewGunFail", P: f.p, N: n, Cls: "newgun"})
 		return nil, f.pl.errVal(prErrGun, nil)
@@ -394,6 +430,9 @@ func (f *prFactory) NewSched() (core.Schedule, error) {
 	f.schedCalls++
 	f.mu.Unlock()
 	f.r.jit()
+	if n == 0 && f.pl.Shared {
+		f.r.blocked(f.p, f.pl, "sched-shared")
+	}
 	if n == f.pl.SchedFail {
 		f.r.emit(prEv{Ev: "NewSchedFail", P: f.p, N: n, Cls: "sched"})
 		return nil, f.pl.errVal(prErrSched, nil)
@@ -445,7 +484,9 @@ func prRunOne(w *vt.Writer, id int, plan prPlan, seed int64, cancelAt int, watch
 	base := runtime.NumGoroutine()
 	ctx, cancel := context.WithCancel(context.Background())
 	defer cancel()
-	r := &prRun{id: id, plan: plan, w: w, rng: rand.New(rand.NewSource(seed)), cancelAt: cancelAt, cancel: cancel}
+	r := &prRun{id: id, plan: plan, w: w, rng: rand.New(rand.NewSource(seed)), cancelAt: cancelAt, cancel: cancel,
+		rel: make(chan struct{})}
+	defer r.release(false)
 	prCurrent.Store(r)
 	w.Emit(prEv{Run: id, Ev: "Plan", Plan: plan.ID, N: len(plan.Pools)})
 
@@ -539,6 +580,7 @@ func prRunOne(w *vt.Writer, id int, plan prPlan, seed int64, cancelAt int, watch
 		cancel()
 		return true, r.count
 	}
+	r.release(true) // calls that do not return before Run has returned may return now
 	waitDone := make(chan struct{})
 	go func() {
 		eng.Wait()
@@ -562,6 +604,13 @@ func prRunOne(w *vt.Writer, id int, plan prPlan, seed int64, cancelAt int, watch
 	return leak, r.count
 }
 
+func prBlock(v interface{}) string {
+	if s, ok := v.(string); ok && s != "none" {
+		return s
+	}
+	return ""
+}
+
 func prDecodePlans(path string) []prPlan {
 	var out []prPlan
 	for _, m := range vt.ReadNDJSON(path) {
@@ -574,7 +623,7 @@ func prDecodePlans(path string) []prPlan {
 				Provider: vt.Str(pm["provider"]), Aggregator: vt.Str(pm["aggregator"]), Warm: vt.Str(pm["warm"]),
 				GunFail: vt.Int(pm["gunFail"]), BindFail: vt.Int(pm["bindFail"]), SchedFail: vt.Int(pm["schedFail"]),
 				PanicInst: vt.Int(pm["panicInst"]), PanicShot: vt.Int(pm["panicShot"]),
-				Fault: vt.Str(pm["fault"]), Shape: vt.Str(pm["shape"]), Ek: vt.Str(pm["ek"]),
+				Fault: vt.Str(pm["fault"]), Shape: vt.Str(pm["shape"]), Ek: vt.Str(pm["ek"]), Block: prBlock(pm["block"]),
 				Long: vt.Bool(pm["long"]), Slow: vt.Bool(pm["slow"]),
 			})
 		}
@@ -631,8 +680,13 @@ func poolRunMain(args []string) {
 		if len(pl.Pools) > 1 {
 			reps = reps2
 		}
+		anyBlock := false
+		for _, pp := range pl.Pools {
+			anyBlock = anyBlock || pp.Block != ""
+		}
 		switch {
-		case !pl.Cancel:
+		case !pl.Cancel || anyBlock:
+			// (a plan with a blocked component call: the cancel is issued when the mock has entered that call)
 			for k := 0; k < *reps; k++ {
 				one(k, -1)
 			}
